@@ -5,6 +5,7 @@ Only property theorems and non-vacuity examples live here; helper lemmas are in 
 import SfntV.Proofs.LayoutFind
 import SfntV.Proofs.LayoutKern
 import SfntV.Proofs.LayoutLig
+import SfntV.Proofs.LayoutPipe
 
 namespace SfntV.Props.C15
 open SfntV SfntV.Layout
@@ -282,6 +283,66 @@ theorem C15_trivial_oob (cmap : Nat → Nat) (isMark : Nat → Bool) (ng : Nat) 
   have : glyphWidth ng w (cmap r) = 0 := by unfold glyphWidth; rw [if_neg (by omega)]
   rw [C15_trivial cmap none none isMark _ [r] (fun f h => by cases h) (fun f h => by cases h)]
   simp [this]
+
+
+/-! ## the pipeline over the real lookup engine (`SfntV.Shape.apply`, C07's model of `Context.Apply`) -/
+
+/-- `Layouter.Layout` is the composition GPOS-apply ∘ assign-widths ∘ GSUB-apply ∘ cmap-map, for EVERY
+string — the empty one, strings that lay out to a single glyph, and longer ones alike (no stage is
+skipped depending on the length): `Layout(s)` succeeds with `out` iff the GSUB context applied to
+one glyph per character (`cmapMap`) succeeds with `a`, the GPOS context applied to `a` with the
+advance widths filled in for the non-mark glyphs (`assignW`) succeeds with `b`, and `out` is `b`'s
+sequence; a nil context passes its input through.  The two contexts' stacks carry over to the next
+call. -/
+theorem C15_pipeline (B : Nat) (cmap : Nat → Nat) (gsub gpos : Option Ctx) (gd : Shape.Gdef)
+    (width : Nat → Int) (st : LStacks) (s : List Nat) (out : List Shape.Glyph) (st' : LStacks) :
+    layoutFull B cmap gsub gpos gd width st s = .ok (out, st') ↔
+      ∃ a b, applyCtx B gsub gd st.gsub (cmapMap cmap s) = .ok a ∧
+        applyCtx B gpos gd st.gpos (assignW gd width a.seq) = .ok b ∧
+        out = b.seq ∧ st' = ⟨a.stack, b.stack⟩ :=
+  layoutFull_ok_iff B cmap gsub gpos gd width st s out st'
+
+/-- the width stage: same glyphs and texts, every non-mark glyph gets the font's advance width,
+GDEF mark glyphs are left as GSUB delivered them -/
+theorem C15_pipeline_widths (gd : Shape.Gdef) (width : Nat → Int) (seq : List Shape.Glyph) :
+    (assignW gd width seq).length = seq.length ∧
+    ∀ (i : Nat) (g : Shape.Glyph), seq[i]? = some g →
+      (assignW gd width seq)[i]? =
+        some (if isMarkGd gd g.gid then g else { g with adv := width g.gid }) := by
+  refine ⟨by simp [assignW], ?_⟩
+  intro i g h
+  simp [assignW, List.getElem?_map, h]
+
+/-- The trivial case as a corollary of `C15_pipeline`, with the real engine: when no lookup is
+selected for either context (or the table is absent) the output is exactly one glyph per character,
+carrying that character and the font's advance width (marks: 0) — for every string. -/
+theorem C15_trivial_engine (B : Nat) (cmap : Nat → Nat) (gsub gpos : Option Ctx) (gd : Shape.Gdef)
+    (width : Nat → Int) (st : LStacks) (s : List Nat)
+    (hsub : ∀ c, gsub = some c → c.lookups = []) (hpos : ∀ c, gpos = some c → c.lookups = []) :
+    layoutFull B cmap gsub gpos gd width st s =
+      .ok (s.map fun r => { gid := cmap r, text := [r],
+                            adv := if isMarkGd gd (cmap r) then 0 else width (cmap r) }, st) := by
+  rw [C15_pipeline]
+  refine ⟨_, _, applyCtx_no_lookups B gsub gd _ _ hsub, applyCtx_no_lookups B gpos gd _ _ hpos, ?_, rfl⟩
+  exact (assignW_cmapMap gd width cmap s).symm
+
+/-- GPOS is applied to a string that lays out to exactly ONE glyph: a single-adjustment lookup
+(GPOS 1.1, XAdvance −100) selected for the context changes the advance of a lone glyph
+(1366 → 1266).  (A `len(seq) > 1` guard in front of the GPOS stage would leave 1366.) -/
+theorem C15_pipeline_single_glyph :
+    layoutFull 64 (fun r => if r = 65 then 36 else 0) none
+      (some ⟨[{ subtables := [.gpos11 [(36, 0)] (some { xAdvance := -100 })] }], [0]⟩) {}
+      (fun g => if g = 36 then 1366 else 0) {} [65] =
+    .ok ([{ gid := 36, text := [65], adv := 1266 }], {}) := by decide
+
+/-- …and to the empty string nothing happens, without a panic. -/
+theorem C15_pipeline_empty (B : Nat) (cmap : Nat → Nat) (ll : Shape.LookupList) (lk : Shape.Lookup)
+    (gd : Shape.Gdef) (width : Nat → Int) (hrev : lk.reverse = false) :
+    layoutFull B cmap none (some ⟨ll, []⟩) gd width {} [] = .ok ([], {}) ∧
+    Shape.applyLookup B ll gd lk ⟨[], []⟩ = .ok ⟨[], []⟩ := by
+  constructor
+  · rfl
+  · simp [Shape.applyLookup, hrev, Shape.lookupLoop]
 
 /-! Non-vacuity -/
 
